@@ -50,7 +50,7 @@ def make_canary_text(text, regions):
     skipped = []
     # process regions bottom-up so that line numbers of earlier regions stay valid
     for r in sorted([r for r in regions if r.kind == 'fn'], key=lambda r: -r.out_line0):
-        if '@' in r.key:
+        if '@' in r.key or getattr(r, 'stubbed', False):
             skipped.append(r.key)
             continue
         seg = '\n'.join(lines[r.out_line0 - 1:r.out_line1 - 1])
@@ -458,6 +458,31 @@ def process_unit(unit, seed, want_canary=True, prop=None):
         res = f_main.result()
         cres = f_can.result() if f_can else None
     failures, undecided, _ = analyse(unit, path, text, regions, res)
+    # compile errors of transplanted ghost text that lie inside function regions: stub exactly those functions (their properties
+    # become undecided) and verify the rest of the unit again, instead of leaving every property of the unit undecided
+    cerr = [u for u in undecided if u.startswith('compile:') or u.startswith('unclassified:')]
+    if cerr and len(cerr) == len(undecided):
+        bad = set()
+        ok = True
+        for u in cerr:
+            m = re.search(r'\(line (\d+)\)', u)
+            rg = A.region_of_line(regions, int(m.group(1))) if m else None
+            if rg is None or rg.kind != 'fn' or not rg.changed:
+                ok = False
+                break
+            bad.add((rg.file, rg.key))
+        if ok and bad:
+            first_reasons = list(undecided)
+            regions, text = A.assemble(cfg['fragments'], cfg['features'], path, stub_keys=bad)
+            text += '\nfn main() {}\n'
+            open(path, 'w').write(text)
+            out.update(regions=regions, text=text)
+            for rg in regions:
+                if rg.stubbed:
+                    rg.stub_reason += ' | ' + ' | '.join(first_reasons)[:300]
+            res = run_verus(path, unit, seed, None, margs)
+            failures, undecided, _ = analyse(unit, path, text, regions, res)
+            cres = None   # the canary text was built from the first assembly
     if failures and not undecided:
         # reproducibility: second run, different seed, 4x rlimit
         res2 = run_verus(path, unit, seed + 17, 4 * U.UNITS[unit].get('rlimit', 20), margs)
@@ -485,6 +510,7 @@ def process_unit(unit, seed, want_canary=True, prop=None):
         mm = module_map(text)
         out['obligations'] = [o for o in out['obligations'] if mm.get(o['line'], '') in mods]
     out['assumption_sites'] = scan_assumptions(text)
+    out['stubbed'] = [dict(function=r.key, file=r.file, props=sorted(set(r.props) | (set(r.implicit) or {'C17', 'C18'})), reason=r.stub_reason) for r in regions if r.stubbed]
     return out
 
 
@@ -556,6 +582,9 @@ def check_property(prop, tier, seed, replay=None):
             if r['canary']['vacuous']:
                 undecided.append('%s: VACUITY canary verified: %s' % (r['unit'], r['canary']['vacuous']))
             undecided += ['%s canary: %s' % (r['unit'], x) for x in r['canary']['undecided']]
+        for sb in r.get('stubbed', []):
+            if prop in sb['props']:
+                undecided.append('%s: %s (%s) could not be re-verified on the current repository text and was stubbed: %s' % (r['unit'], sb['function'], sb['file'], sb['reason'][:300]))
         obligations += [o for o in r['obligations'] if prop in o['props']]
         for f in r['failures']:
             if prop in f['props']:
